@@ -350,3 +350,33 @@ def lone_chooser_tree(rng, pl=1):
         outs.append([f2b(w), {"p": pl, "i": 50 + card, "a": [[1, T(float(card))], [2, T(2.0 - card)], [3, gamble]]}])
     t = {"c": None, "o": outs}
     return t, tree_stats(t)
+
+
+def blind_tree(rng, d1, d2):
+    """a coin in front of two identical subgames; player one makes d1 hidden binary moves (an infoset per own history),
+    then player two makes d2 binary moves seeing nothing but her own moves; payoffs depend on both histories"""
+    from .gen import tree_stats
+    from .common import f2b
+    table = {}
+
+    def pay(h1, h2):
+        key = (h1, h2)
+        if key not in table:
+            table[key] = rng.choice([-2.0, -1.0, 0.0, 0.5, 1.0, 3.0]) + rng.random() * 0.25
+        return table[key]
+
+    def p2(h1, h2):
+        if len(h2) == d2:
+            return {"t": f2b(pay(h1, h2))}
+        info = 5000 + int("1" + "".join(map(str, h2)), 2)
+        return {"p": 2, "i": info, "a": [[1, p2(h1, h2 + (0,))], [2, p2(h1, h2 + (1,))]]}
+
+    def p1(h1):
+        if len(h1) == d1:
+            return p2(h1, ())
+        info = 100 + int("1" + "".join(map(str, h1)), 2)
+        return {"p": 1, "i": info, "a": [[1, p1(h1 + (0,))], [2, p1(h1 + (1,))]]}
+    sub = p1(())
+    import copy
+    t = {"c": None, "o": [[f2b(1.0), sub], [f2b(1.0), copy.deepcopy(sub)]]}
+    return t, tree_stats(t)
